@@ -1,71 +1,246 @@
-(* Sign of the traveltimes of the 3D solver (clause "traveltimes are non-negative" of C03), over the reals
-   (T := R, instance NumR).
+(* Traveltimes of the 3D solver are non-negative (clause of C03), over the reals (T := R, instance NumR), for ALL
+   inputs - and the record of why this was FALSE before the causality guard on the 8-point operator.
 
-   RESULT: the clause is FALSE in general and TRUE on cubic grids (dz = dx = dy).
-
-   The value written by one node update is min(t0, t1d, t2d, t3d).  For ALL spacings > 0 and every state with
-   non-negative entries, t0, t1d and t2d are >= 0 (t1d_nonneg_3d, t2d_z*_ge, sweep_t2d_nonneg_3d): the three plane
-   operators are the 2D 4-point operator (NonNeg2d.four_point_ge_tev: under its admissibility test it is >= the
-   diagonal neighbour).  The 8-point operator
-         t3d = (t1 + sqrt (t2 - t3)) / dsum,   t1 = tb * dz2i + ta * dx2i + tc * dy2i
-   is NOT: with p = 1/dz^2, q = 1/dx^2, r = 1/dy^2
+   The value written by one node update is min(t0, t1d, t2d, t3d).  For all spacings > 0 and every state with entries
+   >= 0: t0 >= 0, t1d >= 0 (1D: t + d * s), t2d >= 0 (each plane operator is the 2D 4-point operator under its
+   admissibility test, which returns at least the face-diagonal neighbour's time: NonNeg2d.four_point_ge_tev, stated
+   for arbitrary spacings of the two axes of the plane).  The 8-point operator
+         op3 = (t1 + sqrt (t2 - t3)) / dsum,   t1 = tb * dz2i + ta * dx2i + tc * dy2i
+   has, with p = 1/dz^2, q = 1/dx^2, r = 1/dy^2,
          t1 = (p - (q+r)/2) tv + (q - (p+r)/2) te + (r - (p+q)/2) tn
             + ((p+q)/2 - r) tev + ((q+r)/2 - p) ten + ((p+r)/2 - q) tnv + (p+q+r) tnve        (op3_t1_weights)
-   and the two tests of the code ( min(t1d,t2d) > max(tv,te,tn)  and  t2 >= t3 ) do not bound tev, ten, tnv.
+   and the two tests of the code ( min(t1d,t2d) > max(tv,te,tn)  and  t2 >= t3 ) do not bound tev, ten, tnv:
 
-     op3_ge_tnve_cubic            p = q = r:  t1 = 3 p tnve, hence t3d >= tnve (>= 0)
+     op3_ge_tnve_cubic            p = q = r:  t1 = 3 p tnve, hence op3 >= tnve (>= 0), with or without the tests
      op3_negative_example         dz = dy = 1, dx = 1/2, tnv = 1, the other six neighbours 0, slowness 3/5:
-                                  the test t3 <= t2 holds and t3d = - 3/10
-     op3_negative_iff_noncubic    for spacings p, q, r > 0: there are non-negative neighbour values and a slowness
-                                  >= 0 passing the test t3 <= t2 with t3d < 0   IFF   not (p = q = r)
-     sweep_nonneg_3d_refuted      the generated node update `sweep`, called with the tuple sweep3d builds, on a
-                                  2 x 2 x 2 node grid with entries >= 0 and slowness 3/5 > 0: writes - 3/10
-     sweep_nonneg_3d_false        hence the statement "one node update keeps every entry >= 0" is false
-     sweep_negative_binary64, fteik3d_negative_binary64
-                                  the same node update in binary64, and a complete run of fteik3d in binary64
-                                  (2 x 2 x 1 cells, slowness 8 in the source cell and 1 elsewhere, spacings 1/2, 4, 4,
-                                  source at the origin, one sweep): tt[0,0,1] < 0  (the Python code returns
-                                  -3.107380552746847 there, also through Eikonal3D.solve)
+                                  the test t3 <= t2 holds and op3 = - 3/10
+     op3_negative_iff_noncubic    for p, q, r > 0: there are neighbour values >= 0 and a slowness >= 0 passing the test
+                                  t3 <= t2 with op3 < 0   IFF   not (p = q = r)
 
-   What IS proved, for ALL inputs (no hypothesis on shapes or index ranges):
-     1. sweep_nonneg_3d_partial   any spacings: the node update keeps every entry >= 0 PROVIDED its 8-point
-                                  candidate is >= 0 (the only branch that can fail)
-        sweep_nonneg_3d_cubic     dz = dx = dy: the node update keeps every entry >= 0
-     2. sweep3d_nonneg_cubic      dz = dx = dy: one pass (sweep3d) keeps every entry >= 0
-     3. init_nonneg_3d            any spacings (no hypothesis on them): the state before the first pass is >= 0, vzero >= 0
-     4. fteik3d_nonneg_cubic (+ _get)  dz = dx = dy: every traveltime returned by fteik3d is >= 0, and so is vzero
+   The source now discards the 8-point time when it is earlier than the cube-diagonal neighbour (`if t3d < tnve:
+   t3d = Big`).  This file defines the node value in both forms (`node_value true` = with the guard = the generated
+   code: sweep_tt_eq_guarded; `node_value false` = without = the code before the fix) and proves
 
-   MISSING for the general statements sweep_nonneg_3d / sweep3d_nonneg / fteik3d_nonneg (arbitrary dz, dx, dy):
-   nothing can be added, they are false (see above). *)
+   about the code WITHOUT the guard (record of the defect; Gallina copies `node_value false`, `fteik3dU`):
+     node_unguarded_refuted       a 2 x 2 x 2 node grid with entries >= 0, slowness 3/5 > 0, dz = dy = 1, dx = 1/2:
+                                  the value written at node (1,1,1) is - 3/10
+     Binary64.node_unguarded_negative_binary64, Binary64.fteik3dU_negative_binary64
+                                  the same in binary64, and a complete run (2 x 2 x 1 cells, slowness 8 in the source
+                                  cell and 1 elsewhere, spacings 1/2, 4, 4, source at the origin, 1, 2, 5 sweeps):
+                                  tt[0,0,1] = -3.107380552746847 (the value the unfixed Python code returned)
+     t3d_guard_noop_cubic         dz = dx = dy: the guard never fires (node_value true = node_value false), i.e. the fix
+                                  changes nothing on cubic grids
+
+   about the generated code (WITH the guard), for ALL inputs - no hypothesis on shapes or index ranges:
+     1. sweep_nonneg_3d           one node update (Fteik3d.sweep with the tuple sweep3d builds) keeps every entry >= 0
+     2. sweep3d_nonneg (+ _get)   one pass keeps every entry >= 0
+     3. init_nonneg_3d            the state before the first pass is >= 0 and vzero >= 0 (no hypothesis on the spacings)
+     4. fteik3d_nonneg (+ _get)   every traveltime returned by fteik3d is >= 0, and so is vzero
+   Hypotheses: dz, dx, dy > 0 and every slowness >= 0. *)
 From Coq Require Import ZArith List Bool Lia Reals Lra Psatz.
-From Coq Require PrimFloat.
+From Coq Require Floats.PrimFloat.
 From FT.lib Require Import Num Arr ArrLemmas.
 From FT.gen Require Import Fteik3d.
-From FT.proofs Require Sweep2dProofs Solve2dProofs.
-From FT.proofs Require Import NonNeg2d Sweep3dProofs Solve3dProofs SweepDargs Operators3R.
+From FT.proofs Require OperatorsR Sweep2dProofs Solve2dProofs.
+From FT.proofs Require Import NonNeg2d Sweep3dProofs Solve3dProofs SweepDargs.
 Import ListNotations.
 Open Scope R_scope.
 
 Notation four_point := OperatorsR.four_point.
+Notation dir_range := Sweep2dProofs.dir_range.
+Notation sgnv := Sweep2dProofs.sgnv.
+Notation sgnt := Sweep2dProofs.sgnt.
+
+Ltac numR := cbn [nadd nsub nmul ndiv nsqrt nabs nneg nltb nleb neqb nofZ nofQ NumR] in *.
+Ltac unnum := unfold nsq, ngtb, ngeb, nneb in *; numR.
+
+(* ------------------------------------------------------------------------------------------ *)
+(* 0. the candidates of one node update, transcribed from `sweep` (every numeric instance)      *)
+(* ------------------------------------------------------------------------------------------ *)
+Section Ops.
+Context {T : Type} `{Num T}.
+Notation g := (get (nofZ 0)).
+Implicit Types (tt slow : arr T) (i j k sgnvz sgnvx sgnvy sgntz sgntx sgnty nz nx ny : Z).
+
+(* orientation: tv, te, tn the three face neighbours, tev, ten, tnv the three face diagonals, tnve the cube diagonal *)
+Definition nb_v tt i j k sgntz : T := g tt [(i - sgntz)%Z; j; k].
+Definition nb_e tt i j k sgntx : T := g tt [i; (j - sgntx)%Z; k].
+Definition nb_n tt i j k sgnty : T := g tt [i; j; (k - sgnty)%Z].
+Definition nb_ev tt i j k sgntz sgntx : T := g tt [(i - sgntz)%Z; (j - sgntx)%Z; k].
+Definition nb_en tt i j k sgntx sgnty : T := g tt [i; (j - sgntx)%Z; (k - sgnty)%Z].
+Definition nb_nv tt i j k sgntz sgnty : T := g tt [(i - sgntz)%Z; j; (k - sgnty)%Z].
+Definition nb_nve tt i j k sgntz sgntx sgnty : T := g tt [(i - sgntz)%Z; (j - sgntx)%Z; (k - sgnty)%Z].
+
+(* slowness used along an edge (min over the four cells adjoining it), in a face (two cells), in the cell *)
+Definition edge_s_z slow i j k sgnvz nx ny : T :=
+  pymin4 (g slow [(i - sgnvz)%Z; Z.max (j - 1) 0; Z.max (k - 1) 0]) (g slow [(i - sgnvz)%Z; Z.max (j - 1) 0; Z.min k (ny - 2)])
+         (g slow [(i - sgnvz)%Z; Z.min j (nx - 2); Z.max (k - 1) 0]) (g slow [(i - sgnvz)%Z; Z.min j (nx - 2); Z.min k (ny - 2)]).
+Definition edge_s_x slow i j k sgnvx nz ny : T :=
+  pymin4 (g slow [Z.max (i - 1) 0; (j - sgnvx)%Z; Z.max (k - 1) 0]) (g slow [Z.min i (nz - 2); (j - sgnvx)%Z; Z.max (k - 1) 0])
+         (g slow [Z.max (i - 1) 0; (j - sgnvx)%Z; Z.min k (ny - 2)]) (g slow [Z.min i (nz - 2); (j - sgnvx)%Z; Z.min k (ny - 2)]).
+Definition edge_s_y slow i j k sgnvy nz nx : T :=
+  pymin4 (g slow [Z.max (i - 1) 0; Z.max (j - 1) 0; (k - sgnvy)%Z]) (g slow [Z.max (i - 1) 0; Z.min j (nx - 2); (k - sgnvy)%Z])
+         (g slow [Z.min i (nz - 2); Z.max (j - 1) 0; (k - sgnvy)%Z]) (g slow [Z.min i (nz - 2); Z.min j (nx - 2); (k - sgnvy)%Z]).
+Definition face_s_zx slow i j k sgnvz sgnvx ny : T :=
+  pymin2 (g slow [(i - sgnvz)%Z; (j - sgnvx)%Z; Z.max (k - 1) 0]) (g slow [(i - sgnvz)%Z; (j - sgnvx)%Z; Z.min k (ny - 2)]).
+Definition face_s_zy slow i j k sgnvz sgnvy nx : T :=
+  pymin2 (g slow [(i - sgnvz)%Z; Z.max (j - 1) 0; (k - sgnvy)%Z]) (g slow [(i - sgnvz)%Z; Z.min j (nx - 2); (k - sgnvy)%Z]).
+Definition face_s_xy slow i j k sgnvx sgnvy nz : T :=
+  pymin2 (g slow [Z.max (i - 1) 0; (j - sgnvx)%Z; (k - sgnvy)%Z]) (g slow [Z.min i (nz - 2); (j - sgnvx)%Z; (k - sgnvy)%Z]).
+Definition cell_s slow i j k sgnvz sgnvx sgnvy : T := g slow [(i - sgnvz)%Z; (j - sgnvx)%Z; (k - sgnvy)%Z].
+
+Definition c_t1d tt slow (dz dx dy : T) i j k sgnvz sgnvx sgnvy sgntz sgntx sgnty nz nx ny : T :=
+  pymin3 (nadd (nb_v tt i j k sgntz) (nmul dz (edge_s_z slow i j k sgnvz nx ny)))
+         (nadd (nb_e tt i j k sgntx) (nmul dx (edge_s_x slow i j k sgnvx nz ny)))
+         (nadd (nb_n tt i j k sgnty) (nmul dy (edge_s_y slow i j k sgnvy nz nx))).
+
+(* the plane operator in the two syntactic forms of the code; A, B are the two extrapolated times *)
+Definition plane_zx (tv te tev vref d1 d2 : T) : T :=
+  let ta := nsub (nadd tev te) tv in let tb := nadd (nsub tev te) tv in
+  ndiv (nadd (nadd (nmul tb d1) (nmul ta d2))
+             (nsqrt (nsub (nmul (nmul (nofZ 4) (nsq vref)) (nadd d1 d2)) (nmul (nmul d1 d2) (nsq (nsub ta tb))))))
+       (nadd d1 d2).
+Definition plane_op (A B d1 d2 vref : T) : T :=
+  ndiv (nadd (nadd (nmul A d1) (nmul B d2))
+             (nsqrt (nsub (nmul (nmul (nofZ 4) (nsq vref)) (nadd d1 d2)) (nmul (nmul d1 d2) (nsq (nsub A B))))))
+       (nadd d1 d2).
+Definition c_t2d_zx (tv te tev vref dz dx dz2i dx2i : T) : T :=
+  if nltb tv (nadd te (nmul dx vref)) && nltb te (nadd tv (nmul dz vref)) then plane_zx tv te tev vref dz2i dx2i else Big.
+Definition c_t2d_zy (tv tn tnv vref dz dy dz2i dy2i : T) : T :=
+  if nltb tv (nadd tn (nmul dy vref)) && nltb tn (nadd tv (nmul dz vref))
+  then plane_op (nadd (nsub tv tn) tnv) (nadd (nsub tn tv) tnv) dz2i dy2i vref else Big.
+Definition c_t2d_xy (te tn ten vref dx dy dx2i dy2i : T) : T :=
+  if nltb te (nadd tn (nmul dy vref)) && nltb tn (nadd te (nmul dx vref))
+  then plane_op (nadd (nsub te tn) ten) (nadd (nsub tn te) ten) dx2i dy2i vref else Big.
+Definition c_t2d tt slow (dz dx dy dz2i dx2i dy2i : T) i j k sgnvz sgnvx sgnvy sgntz sgntx sgnty nz nx ny : T :=
+  let tv := nb_v tt i j k sgntz in let te := nb_e tt i j k sgntx in let tn := nb_n tt i j k sgnty in
+  pymin3 (c_t2d_zx tv te (nb_ev tt i j k sgntz sgntx) (face_s_zx slow i j k sgnvz sgnvx ny) dz dx dz2i dx2i)
+         (c_t2d_zy tv tn (nb_nv tt i j k sgntz sgnty) (face_s_zy slow i j k sgnvz sgnvy nx) dz dy dz2i dy2i)
+         (c_t2d_xy te tn (nb_en tt i j k sgntx sgnty) (face_s_xy slow i j k sgnvx sgnvy nz) dx dy dx2i dy2i).
+
+(* the 8-point operator *)
+Definition hf : T := nofQ 1 2.
+Definition op3_a (tv te tn tev ten tnv tnve : T) : T :=
+  nadd (nsub (nadd (nsub (nadd (nsub te (nmul hf tn)) (nmul hf ten)) (nmul hf tv)) (nmul hf tev)) tnv) tnve.
+Definition op3_b (tv te tn tev ten tnv tnve : T) : T :=
+  nadd (nsub (nadd (nsub (nadd (nsub tv (nmul hf tn)) (nmul hf tnv)) (nmul hf te)) (nmul hf tev)) ten) tnve.
+Definition op3_c (tv te tn tev ten tnv tnve : T) : T :=
+  nadd (nsub (nadd (nsub (nadd (nsub tn (nmul hf te)) (nmul hf ten)) (nmul hf tv)) (nmul hf tnv)) tev) tnve.
+Definition op3_t2 (vref dsum : T) : T := nmul (nmul (nsq vref) dsum) (nofZ 9).
+Definition op3_t3 (tv te tn tev ten tnv tnve dzxi dzyi dxyi : T) : T :=
+  let ta := op3_a tv te tn tev ten tnv tnve in let tb := op3_b tv te tn tev ten tnv tnve in
+  let tc := op3_c tv te tn tev ten tnv tnve in
+  nadd (nadd (nmul dzxi (nsq (nsub ta tb))) (nmul dzyi (nsq (nsub tb tc)))) (nmul dxyi (nsq (nsub ta tc))).
+Definition op3 (tv te tn tev ten tnv tnve vref dz2i dx2i dy2i dzxi dzyi dxyi dsum : T) : T :=
+  let ta := op3_a tv te tn tev ten tnv tnve in let tb := op3_b tv te tn tev ten tnv tnve in
+  let tc := op3_c tv te tn tev ten tnv tnve in
+  ndiv (nadd (nadd (nadd (nmul tb dz2i) (nmul ta dx2i)) (nmul tc dy2i))
+             (nsqrt (nsub (op3_t2 vref dsum) (op3_t3 tv te tn tev ten tnv tnve dzxi dzyi dxyi))))
+       dsum.
+(* the causality guard added to the source: a time earlier than the cube-diagonal neighbour is discarded *)
+Definition guard3 (guarded : bool) (v tnve : T) : T := if guarded then (if nltb v tnve then Big else v) else v.
+
+Definition c_t3d (guarded : bool) tt slow (dz dx dy dz2i dx2i dy2i dzxi dzyi dxyi dsum : T)
+           i j k sgnvz sgnvx sgnvy sgntz sgntx sgnty nz nx ny : T :=
+  let tv := nb_v tt i j k sgntz in let te := nb_e tt i j k sgntx in let tn := nb_n tt i j k sgnty in
+  let tev := nb_ev tt i j k sgntz sgntx in let ten := nb_en tt i j k sgntx sgnty in
+  let tnv := nb_nv tt i j k sgntz sgnty in let tnve := nb_nve tt i j k sgntz sgntx sgnty in
+  let vref := cell_s slow i j k sgnvz sgnvx sgnvy in
+  if ngtb (pymin2 (c_t1d tt slow dz dx dy i j k sgnvz sgnvx sgnvy sgntz sgntx sgnty nz nx ny)
+                  (c_t2d tt slow dz dx dy dz2i dx2i dy2i i j k sgnvz sgnvx sgnvy sgntz sgntx sgnty nz nx ny))
+          (pymax3 tv te tn)
+  then if ngeb (op3_t2 vref dsum) (op3_t3 tv te tn tev ten tnv tnve dzxi dzyi dxyi)
+       then guard3 guarded (op3 tv te tn tev ten tnv tnve vref dz2i dx2i dy2i dzxi dzyi dxyi dsum) tnve
+       else Big
+  else Big.
+
+(* the value written at node (i,j,k): min(t0, t1d, t2d, t3d) *)
+Definition node_value (guarded : bool) tt slow (dz dx dy dz2i dx2i dy2i dzxi dzyi dxyi dsum : T)
+           i j k sgnvz sgnvx sgnvy sgntz sgntx sgnty nz nx ny : T :=
+  pymin4 (g tt [i; j; k])
+         (c_t1d tt slow dz dx dy i j k sgnvz sgnvx sgnvy sgntz sgntx sgnty nz nx ny)
+         (c_t2d tt slow dz dx dy dz2i dx2i dy2i i j k sgnvz sgnvx sgnvy sgntz sgntx sgnty nz nx ny)
+         (c_t3d guarded tt slow dz dx dy dz2i dx2i dy2i dzxi dzyi dxyi dsum
+                i j k sgnvz sgnvx sgnvy sgntz sgntx sgnty nz nx ny).
+
+(* the same with the spacing constants computed as in sweep3d (SweepDargs.dargs3) *)
+Definition node_value_sp (guarded : bool) tt slow (dz dx dy : T) i j k sgnvz sgnvx sgnvy sgntz sgntx sgnty nz nx ny : T :=
+  let dz2i := ndiv (ndiv (nofZ 1) dz) dz in
+  let dx2i := ndiv (ndiv (nofZ 1) dx) dx in
+  let dy2i := ndiv (ndiv (nofZ 1) dy) dy in
+  node_value guarded tt slow dz dx dy dz2i dx2i dy2i (nmul dz2i dx2i) (nmul dz2i dy2i) (nmul dx2i dy2i)
+             (nadd (nadd dz2i dx2i) dy2i) i j k sgnvz sgnvx sgnvy sgntz sgntx sgnty nz nx ny.
+
+(* THE TIE: the generated sweep writes node_value true (by computation) *)
+Theorem sweep_tt_eq_guarded tt ttsgn slow (dz dx dy dz2i dx2i dy2i dzxi dzyi dxyi dsum : T)
+        i j k sgnvz sgnvx sgnvy sgntz sgntx sgnty nz nx ny grad :
+  fst (sweep tt ttsgn slow (dz, dx, dy, dz2i, dx2i, dy2i, dzxi, dzyi, dxyi, dsum)
+             i j k sgnvz sgnvx sgnvy sgntz sgntx sgnty nz nx ny grad)
+  = set tt [i; j; k] (node_value true tt slow dz dx dy dz2i dx2i dy2i dzxi dzyi dxyi dsum
+                                 i j k sgnvz sgnvx sgnvy sgntz sgntx sgnty nz nx ny).
+Proof.
+  unfold sweep. cbv zeta.
+  lazymatch goal with |- fst (?a, _) = ?r => change (a = r) end.
+  reflexivity.
+Qed.
+
+Corollary sweep_dargs3_eq tt ttsgn slow (dz dx dy : T) i j k sgnvz sgnvx sgnvy sgntz sgntx sgnty nz nx ny grad :
+  fst (sweep tt ttsgn slow (dargs3 dz dx dy) i j k sgnvz sgnvx sgnvy sgntz sgntx sgnty nz nx ny grad)
+  = set tt [i; j; k] (node_value_sp true tt slow dz dx dy i j k sgnvz sgnvx sgnvy sgntz sgntx sgnty nz nx ny).
+Proof. unfold dargs3, node_value_sp. cbv zeta. apply sweep_tt_eq_guarded. Qed.
+
+(* a model of the solver WITHOUT the guard (the code before the fix): the node update writes node_value false, the
+   loop nest is that of sweep3d (Sweep3dProofs.pass3T / sweep3dT), the initial state is Solve3dProofs.tt0_3d.
+   Faithfulness of the node update was checked once against the model generated from the pre-fix source (repository
+   commit fdc5767): there, for every numeric instance,
+       fst (sweep tt ttsgn slow (dargs3 dz dx dy) i j k .. grad) = updU slow dz dx dy nz nx ny .. i j k tt
+   holds by `unfold; cbv zeta; reflexivity` (the proof script of sweep_tt_eq_guarded); on the binary64 instance the run
+   below reproduces the 17 digits the unfixed Python code returned. *)
+Definition updU slow (dz dx dy : T) nz nx ny sgnvz sgnvx sgnvy sgntz sgntx sgnty i j k tt : arr T :=
+  set tt [i; j; k] (node_value_sp false tt slow dz dx dy i j k sgnvz sgnvx sgnvy sgntz sgntx sgnty nz nx ny).
+Definition passU slow (dz dx dy : T) nz nx ny (uz ux uy : bool) tt : arr T :=
+  for_list (dir_range uy ny) (fun k tt =>
+    for_list (dir_range ux nx) (fun j tt =>
+      for_list (dir_range uz nz) (fun i tt =>
+        updU slow dz dx dy nz nx ny (sgnv uz) (sgnv ux) (sgnv uy) (sgnt uz) (sgnt ux) (sgnt uy) i j k tt) tt) tt) tt.
+Definition sweep3dU slow (dz dx dy : T) nz nx ny tt : arr T :=
+  let tt := passU slow dz dx dy nz nx ny true true true tt in
+  let tt := passU slow dz dx dy nz nx ny true false true tt in
+  let tt := passU slow dz dx dy nz nx ny true true false tt in
+  let tt := passU slow dz dx dy nz nx ny true false false tt in
+  let tt := passU slow dz dx dy nz nx ny false true true tt in
+  let tt := passU slow dz dx dy nz nx ny false false true tt in
+  let tt := passU slow dz dx dy nz nx ny false true false tt in
+  let tt := passU slow dz dx dy nz nx ny false false false tt in
+  tt.
+Definition fteik3dU slow (dz dx dy zsrc xsrc ysrc : T) (nsweep : nat) : arr T :=
+  Nat.iter nsweep (sweep3dU slow dz dx dy (dim slow 0 + 1) (dim slow 1 + 1) (dim slow 2 + 1))
+           (tt0_3d slow dz dx dy zsrc xsrc ysrc).
+End Ops.
 
 (* ------------------------------------------------------------------------------------------ *)
 (* real arithmetic                                                                              *)
 (* ------------------------------------------------------------------------------------------ *)
 Lemma pymin4_ge (m a b c d : R) : m <= a -> m <= b -> m <= c -> m <= d -> m <= pymin4 a b c d.
 Proof. intros Ha Hb Hc Hd. unfold pymin4. apply pymin2_ge; [apply pymin3_ge|]; assumption. Qed.
-
-Lemma pymin4_le_last (a b c d : R) : pymin4 a b c d <= d.
+Lemma pymin2_gt (x p q : R) : x < p -> x < q -> x < pymin2 p q.
+Proof. intros. unfold pymin2. destruct (nltb q p); assumption. Qed.
+Lemma pymin3_gt (x p q r : R) : x < p -> x < q -> x < r -> x < pymin3 p q r.
+Proof. intros. unfold pymin3. repeat apply pymin2_gt; assumption. Qed.
+Lemma pymax3_lt (x p q r : R) : p < x -> q < x -> r < x -> pymax3 p q r < x.
+Proof. intros. unfold pymax3, pymax2. repeat destruct (nltb _ _); assumption. Qed.
+Lemma pymin2_same (p : R) : pymin2 p p = p.
+Proof. unfold pymin2. destruct (nltb p p); reflexivity. Qed.
+Lemma pymin4_same (x : R) : pymin4 x x x x = x.
+Proof. unfold pymin4, pymin3. rewrite !pymin2_same. reflexivity. Qed.
+Lemma pymin4_eq_last (a b c d : R) : d < a -> d < b -> d < c -> pymin4 a b c d = d.
 Proof.
-  unfold pymin4, pymin2 at 1. cbn [nltb NumR]. destruct (Rltb d (pymin3 a b c)) eqn:E; [lra|].
-  apply Rltb_false in E. exact E.
+  intros Ha Hb Hc. unfold pymin4, pymin2 at 1. cbn [nltb NumR].
+  rewrite (proj2 (Rltb_true _ _)); [reflexivity | apply pymin3_gt; assumption].
 Qed.
 
 Lemma Big3_nonneg : 0 <= (Big : R).
 Proof. unfold Big. cbn [nofZ NumR]. lra. Qed.
-
-(* the tuple of spacing constants that sweep3d hands to sweep, in real-number notation *)
-Lemma dargs3_R (dz dx dy : R) : dargs3 dz dx dy = dargs_of dz dx dy.
-Proof. reflexivity. Qed.
 
 Lemma inv2_pos (d : R) : 0 < d -> 0 < 1 / d / d.
 Proof. intros Hd. unfold Rdiv. rewrite Rmult_1_l. apply Rmult_lt_0_compat; apply Rinv_0_lt_compat; exact Hd. Qed.
@@ -73,65 +248,80 @@ Proof. intros Hd. unfold Rdiv. rewrite Rmult_1_l. apply Rmult_lt_0_compat; apply
 (* ------------------------------------------------------------------------------------------ *)
 (* the three plane operators: arbitrary spacings                                                *)
 (* ------------------------------------------------------------------------------------------ *)
-(* each is the 2D 4-point operator of its plane under (the strict form of) its admissibility test, and the
-   placeholder Big otherwise; so it is Big or at least the time of the face-diagonal neighbour *)
-Lemma t2d_zx_ge tv te tev vref dz dx :
+Lemma plane_zx_four_point (tv te tev vref d1 d2 : R) : plane_zx tv te tev vref d1 d2 = four_point tv te tev vref d1 d2.
+Proof. reflexivity. Qed.
+Lemma plane_op_four_point (tv tn tnv d1 d2 vref : R) :
+  plane_op (nadd (nsub tv tn) tnv) (nadd (nsub tn tv) tnv) d1 d2 vref = four_point tv tn tnv vref d1 d2.
+Proof. unfold plane_op, OperatorsR.four_point. unnum. cbv zeta. f_equal. f_equal; [ring | f_equal; ring]. Qed.
+
+(* each is the 2D 4-point operator of its plane under (the strict form of) its admissibility test, and the placeholder
+   Big otherwise; so it is Big or at least the time of the face-diagonal neighbour *)
+Lemma t2d_zx_ge (tv te tev vref dz dx : R) :
   0 < dz -> 0 < dx -> 0 <= vref ->
-  t2d_zx tv te tev vref dz dx (1 / dz / dz) (1 / dx / dx) = Big \/
-  tev <= t2d_zx tv te tev vref dz dx (1 / dz / dz) (1 / dx / dx).
+  c_t2d_zx tv te tev vref dz dx (1 / dz / dz) (1 / dx / dx) = Big \/
+  tev <= c_t2d_zx tv te tev vref dz dx (1 / dz / dz) (1 / dx / dx).
 Proof.
-  intros Hdz Hdx Hv. unfold t2d_zx. destruct (Rltb tv (te + dx * vref)) eqn:E1; [|left; reflexivity].
+  intros Hdz Hdx Hv. unfold c_t2d_zx. rewrite plane_zx_four_point. numR.
+  destruct (Rltb tv (te + dx * vref)) eqn:E1; [|left; reflexivity].
   destruct (Rltb te (tv + dz * vref)) eqn:E2; [|left; reflexivity]. cbn [andb]. right.
   apply Rltb_true in E1, E2. apply four_point_ge_tev; lra.
 Qed.
-
-Lemma t2d_zy_ge tv tn tnv vref dz dy :
+Lemma t2d_zy_ge (tv tn tnv vref dz dy : R) :
   0 < dz -> 0 < dy -> 0 <= vref ->
-  t2d_zy tv tn tnv vref dz dy (1 / dz / dz) (1 / dy / dy) = Big \/
-  tnv <= t2d_zy tv tn tnv vref dz dy (1 / dz / dz) (1 / dy / dy).
+  c_t2d_zy tv tn tnv vref dz dy (1 / dz / dz) (1 / dy / dy) = Big \/
+  tnv <= c_t2d_zy tv tn tnv vref dz dy (1 / dz / dz) (1 / dy / dy).
 Proof.
-  intros Hdz Hdy Hv. unfold t2d_zy. destruct (Rltb tv (tn + dy * vref)) eqn:E1; [|left; reflexivity].
+  intros Hdz Hdy Hv. unfold c_t2d_zy. rewrite plane_op_four_point. numR.
+  destruct (Rltb tv (tn + dy * vref)) eqn:E1; [|left; reflexivity].
   destruct (Rltb tn (tv + dz * vref)) eqn:E2; [|left; reflexivity]. cbn [andb]. right.
-  apply Rltb_true in E1, E2. rewrite op2_four_point. apply four_point_ge_tev; lra.
+  apply Rltb_true in E1, E2. apply four_point_ge_tev; lra.
 Qed.
-
-Lemma t2d_xy_ge te tn ten vref dx dy :
+Lemma t2d_xy_ge (te tn ten vref dx dy : R) :
   0 < dx -> 0 < dy -> 0 <= vref ->
-  t2d_xy te tn ten vref dx dy (1 / dx / dx) (1 / dy / dy) = Big \/
-  ten <= t2d_xy te tn ten vref dx dy (1 / dx / dx) (1 / dy / dy).
+  c_t2d_xy te tn ten vref dx dy (1 / dx / dx) (1 / dy / dy) = Big \/
+  ten <= c_t2d_xy te tn ten vref dx dy (1 / dx / dx) (1 / dy / dy).
 Proof.
-  intros Hdx Hdy Hv. unfold t2d_xy. destruct (Rltb te (tn + dy * vref)) eqn:E1; [|left; reflexivity].
+  intros Hdx Hdy Hv. unfold c_t2d_xy. rewrite plane_op_four_point. numR.
+  destruct (Rltb te (tn + dy * vref)) eqn:E1; [|left; reflexivity].
   destruct (Rltb tn (te + dx * vref)) eqn:E2; [|left; reflexivity]. cbn [andb]. right.
-  apply Rltb_true in E1, E2. rewrite op2_four_point. apply four_point_ge_tev; lra.
+  apply Rltb_true in E1, E2. apply four_point_ge_tev; lra.
 Qed.
 
 Lemma big_or_ge_nonneg (x d : R) : 0 <= d -> x = Big \/ d <= x -> 0 <= x.
-Proof. intros Hd [-> | H]; [apply Big3_nonneg | lra]. Qed.
+Proof. intros Hd [-> | Hx]; [apply Big3_nonneg | lra]. Qed.
 
 (* the radicands of the three plane operators are >= 0 under their tests: NonNeg2d.four_point_radicand_nonneg, which is
    stated for arbitrary spacings of the two axes of the plane, applies verbatim (ZX: dz dx, ZY: dz dy, XY: dx dy) *)
-Example plane_radicand_zy tv tn tnv vref dz dy :
+Example plane_radicand_zy (tv tn tnv vref dz dy : R) :
   0 < dz -> 0 < dy -> 0 <= vref -> tv <= tn + dy * vref -> tn <= tv + dz * vref ->
   let ta := tnv + tn - tv in let tb := tnv - tn + tv in
   0 <= 4 * (vref * vref) * (1 / dz / dz + 1 / dy / dy) - (1 / dz / dz) * (1 / dy / dy) * ((ta - tb) * (ta - tb)).
 Proof. exact (four_point_radicand_nonneg tv tn tnv vref dz dy). Qed.
 
 (* ------------------------------------------------------------------------------------------ *)
-(* the 8-point operator                                                                         *)
+(* the 8-point operator (without the guard)                                                     *)
 (* ------------------------------------------------------------------------------------------ *)
 (* the linear part t1 of the 8-point operator, neighbour by neighbour *)
-Lemma op3_t1_weights tv te tn tev ten tnv tnve p q r :
+Lemma op3_t1_weights (tv te tn tev ten tnv tnve p q r : R) :
   op3_b tv te tn tev ten tnv tnve * p + op3_a tv te tn tev ten tnv tnve * q + op3_c tv te tn tev ten tnv tnve * r
   = (p - (q + r) / 2) * tv + (q - (p + r) / 2) * te + (r - (p + q) / 2) * tn
     + ((p + q) / 2 - r) * tev + ((q + r) / 2 - p) * ten + ((p + r) / 2 - q) * tnv + (p + q + r) * tnve.
-Proof. unfold op3_a, op3_b, op3_c. field. Qed.
+Proof. unfold op3_a, op3_b, op3_c, hf. numR. field. Qed.
 
-(* equal spacings: t1 = 3 p tnve, so the operator returns at least the time of the cube-diagonal neighbour
-   (whatever the other six values and the slowness are, and with or without the test t3 <= t2) *)
-Theorem op3_ge_tnve_cubic tv te tn tev ten tnv tnve vref p :
+(* op3 in real-number notation *)
+Lemma op3_R (tv te tn tev ten tnv tnve vref dz2i dx2i dy2i dzxi dzyi dxyi dsum : R) :
+  op3 tv te tn tev ten tnv tnve vref dz2i dx2i dy2i dzxi dzyi dxyi dsum
+  = ((op3_b tv te tn tev ten tnv tnve * dz2i + op3_a tv te tn tev ten tnv tnve * dx2i
+      + op3_c tv te tn tev ten tnv tnve * dy2i)
+     + sqrt (op3_t2 vref dsum - op3_t3 tv te tn tev ten tnv tnve dzxi dzyi dxyi)) / dsum.
+Proof. reflexivity. Qed.
+
+(* equal spacings: t1 = 3 p tnve, so the operator returns at least the time of the cube-diagonal neighbour (whatever
+   the other six values and the slowness are, with or without the test t3 <= t2): the guard is a no-op there *)
+Theorem op3_ge_tnve_cubic (tv te tn tev ten tnv tnve vref p : R) :
   0 < p -> tnve <= op3 tv te tn tev ten tnv tnve vref p p p (p * p) (p * p) (p * p) (p + p + p).
 Proof.
-  intros Hp. unfold op3. cbv zeta. rewrite op3_t1_weights.
+  intros Hp. rewrite op3_R, op3_t1_weights.
   set (S := sqrt _). assert (HS : 0 <= S) by apply sqrt_pos.
   apply (Rmult_le_reg_r (p + p + p)); [lra|].
   unfold Rdiv. rewrite Rmult_assoc, Rinv_l by lra. nra.
@@ -147,15 +337,15 @@ Proof.
   cbv zeta.
   replace (1 / 1 / 1) with 1 by field. replace (1 / (1 / 2) / (1 / 2)) with 4 by field.
   split.
-  - unfold op3_t3, op3_t2, op3_a, op3_b, op3_c. cbv zeta. lra.
-  - unfold op3. cbv zeta.
+  - unfold op3_t3, op3_t2, op3_a, op3_b, op3_c, hf. cbv zeta. unnum. lra.
+  - rewrite op3_R.
     replace (op3_t2 (3 / 5) (1 + 4 + 1) - op3_t3 0 0 0 0 0 1 0 (1 * 4) (1 * 1) (4 * 1)) with ((6 / 5) * (6 / 5))
-      by (unfold op3_t3, op3_t2, op3_a, op3_b, op3_c; cbv zeta; field).
-    rewrite sqrt_square by lra. unfold op3_a, op3_b, op3_c. field.
+      by (unfold op3_t3, op3_t2, op3_a, op3_b, op3_c, hf; cbv zeta; unnum; field).
+    rewrite sqrt_square by lra. unfold op3_a, op3_b, op3_c, hf. numR. field.
 Qed.
 
 (* the sign of the 8-point operator is safe exactly on cubic grids *)
-Lemma op3_negative_witness p q r (tv te tn tev ten tnv : R) :
+Lemma op3_negative_witness (p q r tv te tn tev ten tnv : R) :
   0 < p -> 0 < q -> 0 < r ->
   (* exactly one of tev, ten, tnv is 1, everything else 0; c = its (negative) weight in t1, m = its weight in t3 *)
   forall c m : R, c < 0 -> 0 <= m ->
@@ -171,13 +361,13 @@ Proof.
   { apply Rmult_le_pos; [exact Hm | left; apply Rinv_0_lt_compat; lra]. }
   exists (sqrt (m / (9 * (p + q + r)))).
   assert (E2 : op3_t2 (sqrt (m / (9 * (p + q + r)))) (p + q + r) = m).
-  { unfold op3_t2. rewrite sqrt_sqrt by exact Hk. field. lra. }
+  { unfold op3_t2. unnum. rewrite sqrt_sqrt by exact Hk. field. lra. }
   split; [apply sqrt_pos|]. split; [rewrite E2, E3; lra|].
-  unfold op3. cbv zeta. rewrite E1, E2, E3. replace (m - m) with 0 by ring. rewrite sqrt_0, Rplus_0_r.
+  rewrite op3_R, E1, E2, E3. replace (m - m) with 0 by ring. rewrite sqrt_0, Rplus_0_r.
   unfold Rdiv. pose proof (Rinv_0_lt_compat _ Hs) as Hi. nra.
 Qed.
 
-Theorem op3_negative_iff_noncubic p q r :
+Theorem op3_negative_iff_noncubic (p q r : R) :
   0 < p -> 0 < q -> 0 < r ->
   ((exists tv te tn tev ten tnv tnve vref,
       0 <= tv /\ 0 <= te /\ 0 <= tn /\ 0 <= tev /\ 0 <= ten /\ 0 <= tnv /\ 0 <= tnve /\ 0 <= vref /\
@@ -192,24 +382,24 @@ Proof.
     assert (Hcase : 2 * q > p + r \/ 2 * p > q + r \/ 2 * r > p + q).
     { destruct (Rlt_dec (p + r) (2 * q)); [left; lra|]. destruct (Rlt_dec (q + r) (2 * p)); [right; left; lra|].
       destruct (Rlt_dec (p + q) (2 * r)); [right; right; lra|]. exfalso. apply Hne. split; lra. }
-    destruct Hcase as [H | [H | H]].
+    destruct Hcase as [Hc | [Hc | Hc]].
     + (* dx is the small spacing: tnv = 1 *)
       destruct (op3_negative_witness p q r 0 0 0 0 0 1 Hp Hq Hr ((p + r) / 2 - q) (9 / 4 * (q * (p + r))))
         as (vref & Hv & Ht & Hn); [lra | nra | | |].
-      * unfold op3_a, op3_b, op3_c. field.
-      * unfold op3_t3, op3_a, op3_b, op3_c. cbv zeta. field.
+      * unfold op3_a, op3_b, op3_c, hf. numR. field.
+      * unfold op3_t3, op3_a, op3_b, op3_c, hf. cbv zeta. unnum. field.
       * exists 0, 0, 0, 0, 0, 1, 0, vref. repeat split; first [assumption | lra].
     + (* dz is the small spacing: ten = 1 *)
       destruct (op3_negative_witness p q r 0 0 0 0 1 0 Hp Hq Hr ((q + r) / 2 - p) (9 / 4 * (p * (q + r))))
         as (vref & Hv & Ht & Hn); [lra | nra | | |].
-      * unfold op3_a, op3_b, op3_c. field.
-      * unfold op3_t3, op3_a, op3_b, op3_c. cbv zeta. field.
+      * unfold op3_a, op3_b, op3_c, hf. numR. field.
+      * unfold op3_t3, op3_a, op3_b, op3_c, hf. cbv zeta. unnum. field.
       * exists 0, 0, 0, 0, 1, 0, 0, vref. repeat split; first [assumption | lra].
     + (* dy is the small spacing: tev = 1 *)
       destruct (op3_negative_witness p q r 0 0 0 1 0 0 Hp Hq Hr ((p + q) / 2 - r) (9 / 4 * (r * (p + q))))
         as (vref & Hv & Ht & Hn); [lra | nra | | |].
-      * unfold op3_a, op3_b, op3_c. field.
-      * unfold op3_t3, op3_a, op3_b, op3_c. cbv zeta. field.
+      * unfold op3_a, op3_b, op3_c, hf. numR. field.
+      * unfold op3_t3, op3_a, op3_b, op3_c, hf. cbv zeta. unnum. field.
       * exists 0, 0, 0, 1, 0, 0, 0, vref. repeat split; first [assumption | lra].
 Qed.
 
@@ -219,111 +409,121 @@ Qed.
 Lemma pymin4_get_nonneg (a : arr R) i1 i2 i3 i4 : nonneg a -> 0 <= pymin4 (get 0 a i1) (get 0 a i2) (get 0 a i3) (get 0 a i4).
 Proof. intros Ha. apply pymin4_ge; apply get_nonneg, Ha. Qed.
 
-Lemma t1d_nonneg_3d tt slow dz dx dy i j k sgnvz sgnvx sgnvy sgntz sgntx sgnty nz nx ny :
+Lemma t1d_nonneg_3d (tt slow : arr R) (dz dx dy : R) i j k sgnvz sgnvx sgnvy sgntz sgntx sgnty nz nx ny :
   0 < dz -> 0 < dx -> 0 < dy -> nonneg slow -> nonneg tt ->
-  0 <= t1d tt slow dz dx dy i j k sgnvz sgnvx sgnvy sgntz sgntx sgnty nz nx ny.
+  0 <= c_t1d tt slow dz dx dy i j k sgnvz sgnvx sgnvy sgntz sgntx sgnty nz nx ny.
 Proof.
-  intros Hdz Hdx Hdy Hs Ht. unfold t1d, edge_s_z, edge_s_x, edge_s_y, nb_v, nb_e, nb_n.
+  intros Hdz Hdx Hdy Hs Ht. unfold c_t1d, edge_s_z, edge_s_x, edge_s_y, nb_v, nb_e, nb_n. numR.
   apply pymin3_ge;
     match goal with |- 0 <= ?a + ?d * ?m =>
       assert (0 <= a) by (apply get_nonneg, Ht);
       assert (0 <= m) by (apply pymin4_get_nonneg, Hs); nra end.
 Qed.
 
-Lemma sweep_t2d_nonneg_3d tt slow dz dx dy i j k sgnvz sgnvx sgnvy sgntz sgntx sgnty nz nx ny :
+Lemma t2d_nonneg_3d (tt slow : arr R) (dz dx dy : R) i j k sgnvz sgnvx sgnvy sgntz sgntx sgnty nz nx ny :
   0 < dz -> 0 < dx -> 0 < dy -> nonneg slow -> nonneg tt ->
-  0 <= sweep_t2d tt slow dz dx dy (1 / dz / dz) (1 / dx / dx) (1 / dy / dy)
-                 i j k sgnvz sgnvx sgnvy sgntz sgntx sgnty nz nx ny.
+  0 <= c_t2d tt slow dz dx dy (1 / dz / dz) (1 / dx / dx) (1 / dy / dy)
+             i j k sgnvz sgnvx sgnvy sgntz sgntx sgnty nz nx ny.
 Proof.
-  intros Hdz Hdx Hdy Hs Ht. unfold sweep_t2d. cbv zeta.
-  assert (Fzx : 0 <= face_s_zx slow i j k sgnvz sgnvx ny) by (unfold face_s_zx; apply pymin2_ge; apply get_nonneg, Hs).
-  assert (Fzy : 0 <= face_s_zy slow i j k sgnvz sgnvy nx) by (unfold face_s_zy; apply pymin2_ge; apply get_nonneg, Hs).
-  assert (Fxy : 0 <= face_s_xy slow i j k sgnvx sgnvy nz) by (unfold face_s_xy; apply pymin2_ge; apply get_nonneg, Hs).
+  intros Hdz Hdx Hdy Hs Ht. unfold c_t2d. cbv zeta.
+  assert (Fzx : 0 <= face_s_zx slow i j k sgnvz sgnvx ny)
+    by (unfold face_s_zx; numR; apply pymin2_ge; apply get_nonneg, Hs).
+  assert (Fzy : 0 <= face_s_zy slow i j k sgnvz sgnvy nx)
+    by (unfold face_s_zy; numR; apply pymin2_ge; apply get_nonneg, Hs).
+  assert (Fxy : 0 <= face_s_xy slow i j k sgnvx sgnvy nz)
+    by (unfold face_s_xy; numR; apply pymin2_ge; apply get_nonneg, Hs).
   apply pymin3_ge.
-  - apply (big_or_ge_nonneg _ (nb_ev tt i j k sgntz sgntx)); [apply get_nonneg, Ht | apply t2d_zx_ge; assumption].
-  - apply (big_or_ge_nonneg _ (nb_nv tt i j k sgntz sgnty)); [apply get_nonneg, Ht | apply t2d_zy_ge; assumption].
-  - apply (big_or_ge_nonneg _ (nb_en tt i j k sgntx sgnty)); [apply get_nonneg, Ht | apply t2d_xy_ge; assumption].
+  - apply (big_or_ge_nonneg _ (nb_ev tt i j k sgntz sgntx)); [apply (get_nonneg tt), Ht | apply t2d_zx_ge; assumption].
+  - apply (big_or_ge_nonneg _ (nb_nv tt i j k sgntz sgnty)); [apply (get_nonneg tt), Ht | apply t2d_zy_ge; assumption].
+  - apply (big_or_ge_nonneg _ (nb_en tt i j k sgntx sgnty)); [apply (get_nonneg tt), Ht | apply t2d_xy_ge; assumption].
 Qed.
 
-(* cubic grid: the 8-point candidate is Big or at least the cube-diagonal neighbour's time *)
-Lemma sweep_t3d_nonneg_cubic tt slow d i j k sgnvz sgnvx sgnvy sgntz sgntx sgnty nz nx ny :
-  0 < d -> nonneg tt ->
-  0 <= sweep_t3d tt slow d d d (1 / d / d) (1 / d / d) (1 / d / d)
-                 (1 / d / d * (1 / d / d)) (1 / d / d * (1 / d / d)) (1 / d / d * (1 / d / d))
-                 (1 / d / d + 1 / d / d + 1 / d / d) i j k sgnvz sgnvx sgnvy sgntz sgntx sgnty nz nx ny.
+(* with the guard the 8-point candidate is Big or at least the cube-diagonal neighbour's time, whatever the spacings *)
+Lemma t3d_guarded_nonneg (tt slow : arr R) (dz dx dy dz2i dx2i dy2i dzxi dzyi dxyi dsum : R)
+      i j k sgnvz sgnvx sgnvy sgntz sgntx sgnty nz nx ny :
+  nonneg tt ->
+  0 <= c_t3d true tt slow dz dx dy dz2i dx2i dy2i dzxi dzyi dxyi dsum i j k sgnvz sgnvx sgnvy sgntz sgntx sgnty nz nx ny.
 Proof.
-  intros Hd Ht. unfold sweep_t3d. cbv zeta.
-  destruct (Rltb _ _); [|apply Big3_nonneg]. destruct (Rleb _ _); [|apply Big3_nonneg].
-  eapply Rle_trans; [|apply op3_ge_tnve_cubic, inv2_pos, Hd]. apply get_nonneg, Ht.
+  intros Ht. unfold c_t3d. cbv zeta.
+  destruct (ngtb _ _); [|apply Big3_nonneg]. destruct (ngeb _ _); [|apply Big3_nonneg].
+  unfold guard3. numR.
+  match goal with |- 0 <= (if Rltb ?v ?d then _ else _) => destruct (Rltb v d) eqn:E end; [apply Big3_nonneg|].
+  apply Rltb_false in E. eapply Rle_trans; [|exact E]. apply (get_nonneg tt), Ht.
 Qed.
 
-(* the generated node update, with the tuple built by sweep3d, in terms of the operators *)
-Lemma sweep_dargs3_eq tt ttsgn slow dz dx dy i j k sgnvz sgnvx sgnvy sgntz sgntx sgnty nz nx ny grad :
-  fst (sweep tt ttsgn slow (dargs3 dz dx dy) i j k sgnvz sgnvx sgnvy sgntz sgntx sgnty nz nx ny grad)
-  = set tt [i; j; k]
-      (pymin4 (get 0 tt [i; j; k])
-              (t1d tt slow dz dx dy i j k sgnvz sgnvx sgnvy sgntz sgntx sgnty nz nx ny)
-              (sweep_t2d tt slow dz dx dy (1 / dz / dz) (1 / dx / dx) (1 / dy / dy)
-                         i j k sgnvz sgnvx sgnvy sgntz sgntx sgnty nz nx ny)
-              (sweep_t3d tt slow dz dx dy (1 / dz / dz) (1 / dx / dx) (1 / dy / dy)
-                         (1 / dz / dz * (1 / dx / dx)) (1 / dz / dz * (1 / dy / dy)) (1 / dx / dx * (1 / dy / dy))
-                         (1 / dz / dz + 1 / dx / dx + 1 / dy / dy)
-                         i j k sgnvz sgnvx sgnvy sgntz sgntx sgnty nz nx ny)).
-Proof. rewrite dargs3_R. unfold dargs_of. apply sweep_tt_eq. Qed.
+(* cubic grid: the guard never fires *)
+Theorem t3d_guard_noop_cubic (tt slow : arr R) (d : R) i j k sgnvz sgnvx sgnvy sgntz sgntx sgnty nz nx ny :
+  0 < d ->
+  node_value_sp true tt slow d d d i j k sgnvz sgnvx sgnvy sgntz sgntx sgnty nz nx ny
+  = node_value_sp false tt slow d d d i j k sgnvz sgnvx sgnvy sgntz sgntx sgnty nz nx ny.
+Proof.
+  intros Hd. unfold node_value_sp, node_value. cbv zeta. f_equal. unfold c_t3d. cbv zeta.
+  destruct (ngtb _ _); [|reflexivity]. destruct (ngeb _ _); [|reflexivity].
+  unfold guard3. numR.
+  match goal with |- (if Rltb ?v ?t then _ else _) = _ => assert (Hge : t <= v) end.
+  { apply op3_ge_tnve_cubic, inv2_pos, Hd. }
+  rewrite (proj2 (Rltb_false _ _) Hge). reflexivity.
+Qed.
 
-(* MAIN 1 (partial): arbitrary spacings; the 8-point candidate is the only one whose sign is not guaranteed *)
-Theorem sweep_nonneg_3d_partial (tt : arr R) ttsgn (slow : arr R) (dz dx dy : R)
-        i j k sgnvz sgnvx sgnvy sgntz sgntx sgnty nz nx ny grad :
+(* the value written at node (i,j,k) *)
+Lemma node_value_nonneg (tt slow : arr R) (dz dx dy : R) i j k sgnvz sgnvx sgnvy sgntz sgntx sgnty nz nx ny :
   0 < dz -> 0 < dx -> 0 < dy -> nonneg slow -> nonneg tt ->
-  0 <= sweep_t3d tt slow dz dx dy (1 / dz / dz) (1 / dx / dx) (1 / dy / dy)
-                 (1 / dz / dz * (1 / dx / dx)) (1 / dz / dz * (1 / dy / dy)) (1 / dx / dx * (1 / dy / dy))
-                 (1 / dz / dz + 1 / dx / dx + 1 / dy / dy) i j k sgnvz sgnvx sgnvy sgntz sgntx sgnty nz nx ny ->
-  nonneg (fst (sweep tt ttsgn slow (dargs3 dz dx dy) i j k sgnvz sgnvx sgnvy sgntz sgntx sgnty nz nx ny grad)).
+  0 <= node_value_sp true tt slow dz dx dy i j k sgnvz sgnvx sgnvy sgntz sgntx sgnty nz nx ny.
 Proof.
-  intros Hdz Hdx Hdy Hs Ht H3. rewrite sweep_dargs3_eq. apply nonneg_set; [exact Ht|].
-  apply pymin4_ge.
+  intros Hdz Hdx Hdy Hs Ht. unfold node_value_sp, node_value. cbv zeta. numR. apply pymin4_ge.
   - apply get_nonneg, Ht.
   - apply t1d_nonneg_3d; assumption.
-  - apply sweep_t2d_nonneg_3d; assumption.
-  - exact H3.
+  - apply t2d_nonneg_3d; assumption.
+  - apply t3d_guarded_nonneg; assumption.
 Qed.
 
-(* MAIN 1 (cubic grids): all indices, all shapes, all signs *)
-Theorem sweep_nonneg_3d_cubic (tt : arr R) ttsgn (slow : arr R) (d : R)
+(* MAIN 1: all indices, all shapes, all signs, all spacings *)
+Theorem sweep_nonneg_3d (tt : arr R) ttsgn (slow : arr R) (dz dx dy : R)
         i j k sgnvz sgnvx sgnvy sgntz sgntx sgnty nz nx ny grad :
-  0 < d -> nonneg slow -> nonneg tt ->
-  nonneg (fst (sweep tt ttsgn slow (dargs3 d d d) i j k sgnvz sgnvx sgnvy sgntz sgntx sgnty nz nx ny grad)).
+  0 < dz -> 0 < dx -> 0 < dy -> nonneg slow -> nonneg tt ->
+  nonneg (fst (sweep tt ttsgn slow (dargs3 dz dx dy) i j k sgnvz sgnvx sgnvy sgntz sgntx sgnty nz nx ny grad)).
 Proof.
-  intros Hd Hs Ht. apply sweep_nonneg_3d_partial; try assumption. apply sweep_t3d_nonneg_cubic; assumption.
+  intros Hdz Hdx Hdy Hs Ht. rewrite sweep_dargs3_eq. apply nonneg_set; [exact Ht|].
+  apply node_value_nonneg; assumption.
 Qed.
 
-(* The full statement asked for,
-     forall dz dx dy > 0, nonneg slow -> nonneg tt -> nonneg (fst (sweep tt ttsgn slow (dargs3 dz dx dy) ...)),
-   is false: *)
+(* the tuple in real-number notation (Operators3R.dargs_of) *)
+Lemma dargs3_R (dz dx dy : R) :
+  dargs3 dz dx dy = (dz, dx, dy, 1 / dz / dz, 1 / dx / dx, 1 / dy / dy,
+                     1 / dz / dz * (1 / dx / dx), 1 / dz / dz * (1 / dy / dy), 1 / dx / dx * (1 / dy / dy),
+                     1 / dz / dz + 1 / dx / dx + 1 / dy / dy).
+Proof. reflexivity. Qed.
+
+(* the index form: every in-range entry of the result is >= 0 *)
+Corollary sweep_nonneg_3d_get (tt : arr R) ttsgn (slow : arr R) (dz dx dy : R)
+          i j k sgnvz sgnvx sgnvy sgntz sgntx sgnty nz nx ny grad :
+  0 < dz -> 0 < dx -> 0 < dy -> nonneg slow -> nonneg tt ->
+  forall p q r,
+    0 <= get 0 (fst (sweep tt ttsgn slow (dargs3 dz dx dy) i j k sgnvz sgnvx sgnvy sgntz sgntx sgnty nz nx ny grad)) [p; q; r].
+Proof. intros Hdz Hdx Hdy Hs Ht p q r. apply get_nonneg, sweep_nonneg_3d; assumption. Qed.
+
+(* ---- record: WITHOUT the guard the statement is false ---- *)
 Definition cx_tt : arr R := mkarr [2%Z; 2%Z; 2%Z] [0; 0; 1; 0; 0; 0; 0; 100000].   (* tt[0,1,0] = 1 is `tnv` of node (1,1,1) *)
 Definition cx_slow : arr R := mkarr [1%Z; 1%Z; 1%Z] [3 / 5].
 Definition cx_sgn : arr Z := full [2%Z; 2%Z; 2%Z; 3%Z] 0%Z.
 
 Lemma cx_tt_nonneg : nonneg cx_tt.
-Proof. unfold nonneg, cx_tt. cbn [dat]. repeat constructor; lra. Qed.
+Proof. unfold nonneg, cx_tt. cbn [dat]. repeat (apply Forall_cons; [lra|]). apply Forall_nil. Qed.
 Lemma cx_slow_nonneg : nonneg cx_slow.
-Proof. unfold nonneg, cx_slow. cbn [dat]. repeat constructor; lra. Qed.
+Proof. unfold nonneg, cx_slow. cbn [dat]. repeat (apply Forall_cons; [lra|]). apply Forall_nil. Qed.
 Lemma cx_tt_wf : wf cx_tt.
 Proof. split; [reflexivity | repeat constructor; lia]. Qed.
 
-Lemma pymin4_same (x : R) : pymin4 x x x x = x.
-Proof. unfold pymin4, pymin3. rewrite !pymin2_same. reflexivity. Qed.
-
-Lemma sqrt_div_pos (x y : R) : 0 < x -> 0 < y -> 0 < (0 + sqrt x) / y.
-Proof. intros Hx Hy. rewrite Rplus_0_l. apply Rdiv_lt_0_compat; [apply sqrt_lt_R0; exact Hx | exact Hy]. Qed.
-
-Theorem sweep_nonneg_3d_refuted :
+Theorem node_unguarded_refuted :
   (0 < 1 /\ 0 < 1 / 2 /\ nonneg cx_slow /\ nonneg cx_tt /\ wf cx_tt /\ shape cx_tt = [2%Z; 2%Z; 2%Z]) /\
-  get 0 (fst (sweep cx_tt cx_sgn cx_slow (dargs3 1 (1 / 2) 1) 1 1 1 1 1 1 1 1 1 2 2 2 false)) [1%Z; 1%Z; 1%Z] <= - 3 / 10.
+  node_value_sp false cx_tt cx_slow 1 (1 / 2) 1 1 1 1 1 1 1 1 1 1 2 2 2 = - 3 / 10.
 Proof.
   split; [repeat split; try lra; [apply cx_slow_nonneg | apply cx_tt_nonneg | repeat constructor; lia]|].
-  rewrite sweep_dargs3_eq. rewrite get_set_same; [| apply cx_tt_wf | reflexivity].
-  eapply Rle_trans; [apply pymin4_le_last|].
+  pose proof (t1d_nonneg_3d cx_tt cx_slow 1 (1 / 2) 1 1 1 1 1 1 1 1 1 1 2 2 2
+                ltac:(lra) ltac:(lra) ltac:(lra) cx_slow_nonneg cx_tt_nonneg) as H1.
+  pose proof (t2d_nonneg_3d cx_tt cx_slow 1 (1 / 2) 1 1 1 1 1 1 1 1 1 1 2 2 2
+                ltac:(lra) ltac:(lra) ltac:(lra) cx_slow_nonneg cx_tt_nonneg) as H2.
+  unfold node_value_sp, node_value. cbv zeta. numR.
   assert (Ez : edge_s_z cx_slow 1 1 1 1 2 2 = 3 / 5) by exact (pymin4_same (3 / 5)).
   assert (Ex : edge_s_x cx_slow 1 1 1 1 2 2 = 3 / 5) by exact (pymin4_same (3 / 5)).
   assert (Ey : edge_s_y cx_slow 1 1 1 1 2 2 = 3 / 5) by exact (pymin4_same (3 / 5)).
@@ -339,71 +539,84 @@ Proof.
   assert (Enve : nb_nve cx_tt 1 1 1 1 1 1 = 0) by reflexivity.
   assert (Ec : cell_s cx_slow 1 1 1 1 1 1 = 3 / 5) by reflexivity.
   destruct op3_negative_example as [Htest Hval]. cbv zeta in Htest, Hval.
-  unfold sweep_t3d. cbv zeta. rewrite Ev, Ee, En, Eev, Een, Env, Enve, Ec.
-  rewrite (proj2 (Rleb_true _ _) Htest), Hval.
-  match goal with |- (if Rltb ?a ?b then _ else _) <= _ => assert (Hlt : a < b) end.
-  { unfold t1d, sweep_t2d. cbv zeta. rewrite Ez, Ex, Ey, Fzx, Fzy, Fxy, Ev, Ee, En, Eev, Een, Env.
-    apply pymax3_lt; (apply pymin2_gt; [apply pymin3_gt | apply pymin3_gt]); try lra.
-    all: unfold t2d_zx, t2d_zy, t2d_xy;
-         repeat (rewrite (proj2 (Rltb_true _ _)) by lra); cbn [andb];
-         unfold OperatorsR.four_point, op2; cbv zeta.
-    all: try (replace (1 / 1 / 1) with 1 by field); try (replace (1 / (1 / 2) / (1 / 2)) with 4 by field).
-    all: match goal with |- 0 < (?a + sqrt ?x) / ?y =>
-           assert (Hx : 0 < x) by lra; pose proof (sqrt_lt_R0 x Hx); apply Rdiv_lt_0_compat; lra end. }
-  rewrite (proj2 (Rltb_true _ _) Hlt). lra.
+  match goal with |- pymin4 _ _ _ ?d = _ => assert (E3 : d = - 3 / 10) end.
+  { unfold c_t3d. cbv zeta. rewrite Ev, Ee, En, Eev, Een, Env, Enve, Ec. unfold guard3, ngeb, ngtb. numR.
+    rewrite (proj2 (Rleb_true _ _) Htest), Hval.
+    match goal with |- (if Rltb ?a ?b then _ else _) = _ => assert (Hlt : a < b) end.
+    { unfold c_t1d, c_t2d. cbv zeta. rewrite Ez, Ex, Ey, Fzx, Fzy, Fxy, Ev, Ee, En, Eev, Een, Env. numR.
+      apply pymax3_lt; (apply pymin2_gt; [apply pymin3_gt | apply pymin3_gt]); try lra.
+      all: unfold c_t2d_zx, c_t2d_zy, c_t2d_xy; numR;
+           repeat (rewrite (proj2 (Rltb_true _ _)) by lra); cbn [andb];
+           unfold plane_zx, plane_op; cbv zeta; unnum.
+      all: try (replace (1 / 1 / 1) with 1 by field); try (replace (1 / (1 / 2) / (1 / 2)) with 4 by field).
+      all: match goal with |- 0 < (?a + sqrt ?x) / ?y =>
+             assert (Hx : 0 < x) by lra; pose proof (sqrt_lt_R0 x Hx); apply Rdiv_lt_0_compat; lra end. }
+    rewrite (proj2 (Rltb_true _ _) Hlt). reflexivity. }
+  rewrite E3. apply pymin4_eq_last; try lra.
+  change (get 0 cx_tt [1%Z; 1%Z; 1%Z]) with 100000. lra.
 Qed.
 
-Theorem sweep_nonneg_3d_false :
-  ~ (forall (tt : arr R) ttsgn (slow : arr R) (dz dx dy : R) i j k sgnvz sgnvx sgnvy sgntz sgntx sgnty nz nx ny grad,
-       0 < dz -> 0 < dx -> 0 < dy -> nonneg slow -> nonneg tt ->
-       nonneg (fst (sweep tt ttsgn slow (dargs3 dz dx dy) i j k sgnvz sgnvx sgnvy sgntz sgntx sgnty nz nx ny grad))).
+(* hence, without the guard, "one node update keeps every entry >= 0" fails on a well-formed state with entries >= 0 *)
+Corollary updU_not_nonneg :
+  nonneg cx_tt /\ nonneg cx_slow /\ ~ nonneg (updU cx_slow 1 (1 / 2) 1 2 2 2 1 1 1 1 1 1 1 1 1 cx_tt).
 Proof.
-  intros H. destruct sweep_nonneg_3d_refuted as [(_ & Hdx & Hs & Ht & _ & _) Hneg].
-  specialize (H cx_tt cx_sgn cx_slow 1 (1 / 2) 1 1%Z 1%Z 1%Z 1%Z 1%Z 1%Z 1%Z 1%Z 1%Z 2%Z 2%Z 2%Z false
-                ltac:(lra) Hdx ltac:(lra) Hs Ht).
-  apply (get_nonneg _ [1%Z; 1%Z; 1%Z]) in H. lra.
+  split; [apply cx_tt_nonneg|]. split; [apply cx_slow_nonneg|]. intros Hn.
+  apply (get_nonneg _ [1%Z; 1%Z; 1%Z]) in Hn. unfold updU in Hn.
+  rewrite get_set_same in Hn; [| apply cx_tt_wf | reflexivity].
+  rewrite (proj2 node_unguarded_refuted) in Hn. lra.
 Qed.
 
 (* ------------------------------------------------------------------------------------------ *)
-(* 2. one pass (cubic grids)                                                                    *)
+(* 2. one pass                                                                                  *)
 (* ------------------------------------------------------------------------------------------ *)
 (* sweep3d, traveltime component, as the chain of the eight passes of Sweep3dProofs with the known tuple *)
 Lemma sweep3d_proj_dargs3 nz nx ny (slow : arr R) (dz dx dy : R) (tt : arr R) ttsgn grad :
   fst (sweep3d tt ttsgn slow dz dx dy nz nx ny grad) = sweep3dT nz nx ny slow (dargs3 dz dx dy) tt.
 Proof.
   cbv beta iota delta [sweep3d sweep3dT pass3T Sweep2dProofs.dir_range Sweep2dProofs.sgnv Sweep2dProofs.sgnt].
-  Sweep2dProofs.proj_solve ltac:(subst; unfold swT; apply sweep_tt_indep).
+  Sweep2dProofs.proj_solve ltac:(subst; unfold swT, dargs3; cbv zeta; apply sweep_tt_indep).
 Qed.
 
-Lemma pass3T_nonneg_cubic nz nx ny (slow : arr R) (d : R) uz ux uy (tt : arr R) :
-  0 < d -> nonneg slow -> nonneg tt -> nonneg (pass3T nz nx ny slow (dargs3 d d d) uz ux uy tt).
+Lemma pass3T_nonneg nz nx ny (slow : arr R) (dz dx dy : R) uz ux uy (tt : arr R) :
+  0 < dz -> 0 < dx -> 0 < dy -> nonneg slow -> nonneg tt ->
+  nonneg (pass3T nz nx ny slow (dargs3 dz dx dy) uz ux uy tt).
 Proof.
-  intros Hd Hs Ht. unfold pass3T.
+  intros Hdz Hdx Hdy Hs Ht. unfold pass3T.
   apply (for_list_inv nonneg); [exact Ht|]. intros k t1 _ H1.
   apply (for_list_inv nonneg); [exact H1|]. intros j t2 _ H2.
   apply (for_list_inv nonneg); [exact H2|]. intros i t3 _ H3.
-  unfold swT. apply sweep_nonneg_3d_cubic; assumption.
+  unfold swT. apply sweep_nonneg_3d; assumption.
 Qed.
 
-(* MAIN 2: all grid sizes nz, nx, ny (also degenerate ones) *)
-Theorem sweep3d_nonneg_cubic (tt : arr R) ttsgn (slow : arr R) (d : R) nz nx ny grad :
-  0 < d -> nonneg slow -> nonneg tt ->
-  nonneg (fst (sweep3d tt ttsgn slow d d d nz nx ny grad)).
+(* MAIN 2: all grid sizes nz, nx, ny (also degenerate ones), all spacings *)
+Theorem sweep3d_nonneg (tt : arr R) ttsgn (slow : arr R) (dz dx dy : R) nz nx ny grad :
+  0 < dz -> 0 < dx -> 0 < dy -> nonneg slow -> nonneg tt ->
+  nonneg (fst (sweep3d tt ttsgn slow dz dx dy nz nx ny grad)).
 Proof.
-  intros Hd Hs Ht. rewrite sweep3d_proj_dargs3. unfold sweep3dT. cbv zeta.
-  repeat (apply pass3T_nonneg_cubic; [exact Hd | exact Hs |]). exact Ht.
+  intros Hdz Hdx Hdy Hs Ht. rewrite sweep3d_proj_dargs3. unfold sweep3dT. cbv zeta.
+  repeat (apply pass3T_nonneg; [exact Hdz | exact Hdx | exact Hdy | exact Hs |]). exact Ht.
 Qed.
 
-Corollary sweep3d_nonneg_cubic_get (tt : arr R) ttsgn (slow : arr R) (d : R) nz nx ny grad :
-  0 < d -> nonneg slow -> nonneg tt ->
-  forall p q r, 0 <= get 0 (fst (sweep3d tt ttsgn slow d d d nz nx ny grad)) [p; q; r].
-Proof. intros Hd Hs Ht p q r. apply get_nonneg, sweep3d_nonneg_cubic; assumption. Qed.
+Corollary sweep3d_nonneg_get (tt : arr R) ttsgn (slow : arr R) (dz dx dy : R) nz nx ny grad :
+  0 < dz -> 0 < dx -> 0 < dy -> nonneg slow -> nonneg tt ->
+  forall p q r, 0 <= get 0 (fst (sweep3d tt ttsgn slow dz dx dy nz nx ny grad)) [p; q; r].
+Proof. intros Hdz Hdx Hdy Hs Ht p q r. apply get_nonneg, sweep3d_nonneg; assumption. Qed.
 
 (* ------------------------------------------------------------------------------------------ *)
-(* 3. the initial state (any spacings)                                                          *)
+(* 3. the initial state                                                                         *)
 (* ------------------------------------------------------------------------------------------ *)
+Lemma t_ana_exact i j k (dz dx dy zsa xsa ysa v : R) :
+  t_ana i j k dz dx dy zsa xsa ysa v
+  = v * sqrt ((dz * (IZR i - zsa)) ^ 2 + (dx * (IZR j - xsa)) ^ 2 + (dy * (IZR k - ysa)) ^ 2).
+Proof. unfold t_ana. unnum. f_equal. f_equal. ring. Qed.
 Lemma t_ana_nonneg_3d i j k (dz dx dy zsa xsa ysa vzero : R) : 0 <= vzero -> 0 <= t_ana i j k dz dx dy zsa xsa ysa vzero.
 Proof. intros Hv. rewrite t_ana_exact. apply Rmult_le_pos; [exact Hv | apply sqrt_pos]. Qed.
+Lemma t_anad_fst i j k (dz dx dy zsa xsa ysa v : R) :
+  fst (fst (fst (t_anad i j k dz dx dy zsa xsa ysa v))) = t_ana i j k dz dx dy zsa xsa ysa v.
+Proof.
+  unfold t_anad. set (t := t_ana i j k dz dx dy zsa xsa ysa v). cbv zeta.
+  destruct (ngtb t (nofZ 0)); reflexivity.
+Qed.
 
 (* MAIN 3: Big everywhere except the eight corners of the source cell, which hold vzero * distance; no hypothesis on
    the spacings, the source position or the shape of the model *)
@@ -419,22 +632,22 @@ Proof.
 Qed.
 
 (* ------------------------------------------------------------------------------------------ *)
-(* 4. the solver (cubic grids)                                                                  *)
+(* 4. the solver                                                                                *)
 (* ------------------------------------------------------------------------------------------ *)
-Lemma ptt3_nonneg_cubic (slow : arr R) (d : R) grad t :
-  0 < d -> nonneg slow -> nonneg t -> nonneg (ptt3 slow d d d grad t).
-Proof. intros Hd Hs Ht. unfold ptt3, pass3d. cbn [fst snd]. apply sweep3d_nonneg_cubic; assumption. Qed.
+Lemma ptt3_nonneg (slow : arr R) (dz dx dy : R) grad t :
+  0 < dz -> 0 < dx -> 0 < dy -> nonneg slow -> nonneg t -> nonneg (ptt3 slow dz dx dy grad t).
+Proof. intros Hdz Hdx Hdy Hs Ht. unfold ptt3, pass3d. cbn [fst snd]. apply sweep3d_nonneg; assumption. Qed.
 
-(* MAIN 4: all models (any shape), any source, any number of sweeps, with or without gradient *)
-Theorem fteik3d_nonneg_cubic (slow : arr R) (d zsrc xsrc ysrc : R) nsweep grad (tt ttgrad : arr R) (vzero : R) :
-  0 < d -> nonneg slow ->
-  fteik3d slow d d d zsrc xsrc ysrc nsweep grad = Ok (tt, ttgrad, vzero) ->
+(* MAIN 4: all models (any shape), all spacings, any source, any number of sweeps, with or without gradient *)
+Theorem fteik3d_nonneg (slow : arr R) (dz dx dy zsrc xsrc ysrc : R) nsweep grad (tt ttgrad : arr R) (vzero : R) :
+  0 < dz -> 0 < dx -> 0 < dy -> nonneg slow ->
+  fteik3d slow dz dx dy zsrc xsrc ysrc nsweep grad = Ok (tt, ttgrad, vzero) ->
   nonneg tt /\ 0 <= vzero.
 Proof.
-  intros Hd Hs E. apply fteik3d_ok_inv in E as (_ & -> & ->).
-  destruct (init_nonneg_3d slow d d d zsrc xsrc ysrc Hs) as [H0 Hv]. split; [|exact Hv].
+  intros Hdz Hdx Hdy Hs E. apply fteik3d_ok_inv in E as (_ & -> & ->).
+  destruct (init_nonneg_3d slow dz dx dy zsrc xsrc ysrc Hs) as [H0 Hv]. split; [|exact Hv].
   induction (Z.to_nat nsweep) as [|n IH]; [exact H0|].
-  rewrite Solve2dProofs.iter_S. apply ptt3_nonneg_cubic; assumption.
+  rewrite Solve2dProofs.iter_S. apply ptt3_nonneg; assumption.
 Qed.
 
 (* every entry >= 0, said with indices, for a well-formed 3-D array *)
@@ -459,103 +672,105 @@ Proof.
 Qed.
 
 (* the same with indices: slownesses given cell by cell, traveltimes read node by node *)
-Corollary fteik3d_nonneg_cubic_get (slow : arr R) (d zsrc xsrc ysrc : R) nsweep grad (tt ttgrad : arr R) (vzero : R) :
-  0 < d -> wf slow -> shape slow = [dim slow 0; dim slow 1; dim slow 2] ->
+Corollary fteik3d_nonneg_get (slow : arr R) (dz dx dy zsrc xsrc ysrc : R) nsweep grad (tt ttgrad : arr R) (vzero : R) :
+  0 < dz -> 0 < dx -> 0 < dy -> wf slow -> shape slow = [dim slow 0; dim slow 1; dim slow 2] ->
   (forall i j k, (0 <= i < dim slow 0)%Z -> (0 <= j < dim slow 1)%Z -> (0 <= k < dim slow 2)%Z -> 0 <= get 0 slow [i; j; k]) ->
-  fteik3d slow d d d zsrc xsrc ysrc nsweep grad = Ok (tt, ttgrad, vzero) ->
+  fteik3d slow dz dx dy zsrc xsrc ysrc nsweep grad = Ok (tt, ttgrad, vzero) ->
   (forall i j k, (0 <= i <= dim slow 0)%Z -> (0 <= j <= dim slow 1)%Z -> (0 <= k <= dim slow 2)%Z -> 0 <= get 0 tt [i; j; k])
   /\ 0 <= vzero.
 Proof.
-  intros Hd Hw Hsh Hg E.
-  destruct (fteik3d_nonneg_cubic slow d zsrc xsrc ysrc nsweep grad tt ttgrad vzero Hd) as [Ht Hv]; [|exact E|].
+  intros Hdz Hdx Hdy Hw Hsh Hg E.
+  destruct (fteik3d_nonneg slow dz dx dy zsrc xsrc ysrc nsweep grad tt ttgrad vzero Hdz Hdx Hdy) as [Ht Hv]; [|exact E|].
   - apply (nonneg_iff_get3 slow _ _ _ Hw Hsh), Hg.
   - split; [|exact Hv]. intros i j k _ _ _. apply get_nonneg, Ht.
 Qed.
 
 (* ------------------------------------------------------------------------------------------ *)
-(* non-vacuity: a model of 2 x 2 x 2 cells of slowness 1 (3 x 3 x 3 nodes), unit spacings        *)
+(* non-vacuity: a model of 2 x 2 x 2 cells of slowness 1 (3 x 3 x 3 nodes), spacings 1, 1/2, 2    *)
 (* ------------------------------------------------------------------------------------------ *)
 Definition ex3 : arr R := mkarr [2%Z; 2%Z; 2%Z] [1; 1; 1; 1; 1; 1; 1; 1].
 (* seven nodes of the cube (0..1)^3 already reached, every other node at Big; node (1,1,1) is updated *)
 Definition ex3_tt : arr R :=
-  mkarr [3%Z; 3%Z; 3%Z] [0; 1; 100000;  1; 2; 100000;  100000; 100000; 100000;
-                           1; 2; 100000;  2; 100000; 100000;  100000; 100000; 100000;
+  mkarr [3%Z; 3%Z; 3%Z] [0; 2; 100000;  1/2; 2; 100000;  100000; 100000; 100000;
+                           1; 2; 100000;  1; 100000; 100000;  100000; 100000; 100000;
                            100000; 100000; 100000;  100000; 100000; 100000;  100000; 100000; 100000].
 Definition ex3_sgn : arr Z := full [3%Z; 3%Z; 3%Z; 3%Z] 0%Z.
 Lemma ex3_nonneg : nonneg ex3.
-Proof. unfold nonneg, ex3. cbn [dat]. repeat constructor; lra. Qed.
+Proof. unfold nonneg, ex3. cbn [dat]. repeat (apply Forall_cons; [lra|]). apply Forall_nil. Qed.
 Lemma ex3_tt_nonneg : nonneg ex3_tt.
-Proof. unfold nonneg, ex3_tt. cbn [dat]. repeat constructor; lra. Qed.
+Proof. unfold nonneg, ex3_tt. cbn [dat]. repeat (apply Forall_cons; [lra|]). apply Forall_nil. Qed.
 
-Example sweep_nonneg_3d_cubic_ex :
-  nonneg (fst (sweep ex3_tt ex3_sgn ex3 (dargs3 1 1 1) 1 1 1 1 1 1 1 1 1 3 3 3 false)).
-Proof. apply sweep_nonneg_3d_cubic; [lra | apply ex3_nonneg | apply ex3_tt_nonneg]. Qed.
+Example sweep_nonneg_3d_ex :
+  nonneg (fst (sweep ex3_tt ex3_sgn ex3 (dargs3 1 (1/2) 2) 1 1 1 1 1 1 1 1 1 3 3 3 false)).
+Proof. apply sweep_nonneg_3d; [lra | lra | lra | apply ex3_nonneg | apply ex3_tt_nonneg]. Qed.
 
-Example sweep3d_nonneg_cubic_ex : nonneg (fst (sweep3d ex3_tt ex3_sgn ex3 1 1 1 3 3 3 false)).
-Proof. apply sweep3d_nonneg_cubic; [lra | apply ex3_nonneg | apply ex3_tt_nonneg]. Qed.
+Example sweep3d_nonneg_ex : nonneg (fst (sweep3d ex3_tt ex3_sgn ex3 1 (1/2) 2 3 3 3 false)).
+Proof. apply sweep3d_nonneg; [lra | lra | lra | apply ex3_nonneg | apply ex3_tt_nonneg]. Qed.
 
 (* source in the middle of cell (0,0,0) *)
 Example init_nonneg_3d_ex :
-  nonneg (tt0_3d ex3 1 1 1 (1/2) (1/2) (1/2)) /\ 0 <= vzero3 ex3 1 1 1 (1/2) (1/2) (1/2).
+  nonneg (tt0_3d ex3 1 (1/2) 2 (1/2) (1/4) 1) /\ 0 <= vzero3 ex3 1 (1/2) 2 (1/2) (1/4) 1.
 Proof. apply init_nonneg_3d, ex3_nonneg. Qed.
 
-Lemma ex3_inside : inside3d ex3 1 1 1 (1/2) (1/2) (1/2) = true.
+Lemma ex3_inside : inside3d ex3 1 (1/2) 2 (1/2) (1/4) 1 = true.
 Proof.
   unfold inside3d. cbn [dim shape ex3 nth]. cbn [nleb nmul nofZ NumR].
   rewrite !andb_true_iff, !Rleb_true. lra.
 Qed.
-Example fteik3d_nonneg_cubic_ex :
-  exists tt G v, fteik3d ex3 1 1 1 (1/2) (1/2) (1/2) 2 false = Ok (tt, G, v) /\ nonneg tt /\ 0 <= v.
+Example fteik3d_nonneg_ex :
+  exists tt G v, fteik3d ex3 1 (1/2) 2 (1/2) (1/4) 1 2 false = Ok (tt, G, v) /\ nonneg tt /\ 0 <= v.
 Proof.
-  destruct (fteik3d_raises_iff ex3 1 1 1 (1/2) (1/2) (1/2) 2 false) as [_ H].
+  destruct (fteik3d_raises_iff ex3 1 (1/2) 2 (1/2) (1/4) 1 2 false) as [_ H].
   destruct (H ex3_inside) as [[[tt G] v] E]. exists tt, G, v. split; [exact E|].
-  apply (fteik3d_nonneg_cubic ex3 1 (1/2) (1/2) (1/2) 2 false tt G v); [lra | apply ex3_nonneg | exact E].
+  apply (fteik3d_nonneg ex3 1 (1/2) 2 (1/2) (1/4) 1 2 false tt G v); [lra | lra | lra | apply ex3_nonneg | exact E].
 Qed.
 
+(* ------------------------------------------------------------------------------------------ *)
+(* binary64, by computation: the defect without the guard, and the generated code on the same inputs *)
+(* ------------------------------------------------------------------------------------------ *)
 Module Binary64.
-Import PrimFloat.
-(* the same node update in binary64 (slowness 5/8, exactly representable): the value written is negative *)
-Definition cxF_tt : arr PrimFloat.float := mkarr [2%Z; 2%Z; 2%Z] [0; 0; 1; 0; 0; 0; 0; 100000]%float.
-Definition cxF_slow : arr PrimFloat.float := mkarr [1%Z; 1%Z; 1%Z] [0.625%float].
-Example sweep_negative_binary64 :
-  PrimFloat.ltb
-    (get 0%float (fst (sweep cxF_tt cx_sgn cxF_slow (dargs3 1%float 0.5%float 1%float) 1 1 1 1 1 1 1 1 1 2 2 2 false))
-         [1%Z; 1%Z; 1%Z]) (-0.2)%float = true.
-Proof. vm_compute. reflexivity. Qed.
+Import Coq.Floats.PrimFloat.
+Local Open Scope float_scope.
 
-(* ------------------------------------------------------------------------------------------ *)
-(* the solver itself returns a negative traveltime on a non-cubic grid (binary64, by computation) *)
-(* ------------------------------------------------------------------------------------------ *)
-(* 2 x 2 x 1 cells; slowness 8 in the source cell (0,0,0), 1 in the three others; dz = 1/2, dx = dy = 4; source at the
-   origin; one sweep.  The Python implementation returns tt[0,0,1] = -3.107380552746847 on this input (and the same
-   through Eikonal3D(1/slow, gridsize=(0.5, 4, 4)).solve((0,0,0))), so does the binary64 instance of the model. *)
-Definition bugF_slow : arr PrimFloat.float := mkarr [2%Z; 2%Z; 1%Z] [8; 1; 1; 1]%float.
-Example fteik3d_negative_binary64 :
-  match fteik3d bugF_slow 0.5%float 4%float 4%float 0%float 0%float 0%float 1 false with
-  | Ok (t, _, v) => PrimFloat.ltb (get 0%float t [0%Z; 0%Z; 1%Z]) (-3.1)%float = true /\ v = 8%float
-  | _ => False
-  end.
+(* the node update of node_unguarded_refuted with slowness 5/8 (exactly representable) *)
+Definition cxF_tt : arr float := mkarr [2%Z; 2%Z; 2%Z] [0; 0; 1; 0; 0; 0; 0; 100000].
+Definition cxF_slow : arr float := mkarr [1%Z; 1%Z; 1%Z] [0.625].
+Example node_unguarded_negative_binary64 :
+  ltb (node_value_sp false cxF_tt cxF_slow 1 0.5 1 1 1 1 1 1 1 1 1 1 2 2 2) (-0.1875) = true /\
+  leb 0 (node_value_sp true cxF_tt cxF_slow 1 0.5 1 1 1 1 1 1 1 1 1 1 2 2 2) = true.
 Proof. vm_compute. split; reflexivity. Qed.
-(* and it stays negative however many sweeps are made (checked here for 2 and 5) *)
-Example fteik3d_negative_binary64_more :
-  forall n, In n [2%Z; 5%Z] ->
-  match fteik3d bugF_slow 0.5%float 4%float 4%float 0%float 0%float 0%float n false with
-  | Ok (t, _, _) => PrimFloat.ltb (get 0%float t [0%Z; 0%Z; 1%Z]) (-3.1)%float = true
+
+(* 2 x 2 x 1 cells; slowness 8 in the source cell (0,0,0), 1 in the three others; dz = 1/2, dx = dy = 4; source at the
+   origin.  Before the fix the Python implementation returned tt[0,0,1] = -3.107380552746847 on this input (also
+   through Eikonal3D(1/slow, gridsize=(0.5, 4, 4)).solve((0,0,0))) for every number of sweeps; so does the model
+   without the guard.  The generated code (with the guard) returns a grid whose entries are all >= 0. *)
+Definition bugF_slow : arr float := mkarr [2%Z; 2%Z; 1%Z] [8; 1; 1; 1].
+Definition neg_val : float := (-0x1.8dbea55d23161p+1).   (* the binary64 number printed -3.107380552746847 *)
+Example fteik3dU_negative_binary64 :
+  get 0 (fteik3dU bugF_slow 0.5 4 4 0 0 0 1) [0%Z; 0%Z; 1%Z] = neg_val /\
+  get 0 (fteik3dU bugF_slow 0.5 4 4 0 0 0 2) [0%Z; 0%Z; 1%Z] = neg_val /\
+  get 0 (fteik3dU bugF_slow 0.5 4 4 0 0 0 5) [0%Z; 0%Z; 1%Z] = neg_val.
+Proof. vm_compute. repeat split; reflexivity. Qed.
+Example fteik3d_guarded_binary64 :
+  forall n, In n [1%Z; 2%Z; 5%Z] ->
+  match fteik3d bugF_slow 0.5 4 4 0 0 0 n false with
+  | Ok (t, _, v) => forallb (fun x => leb 0 x) (dat t) = true /\ v = 8
   | _ => False
   end.
-Proof. intros n [<- | [<- | []]]; vm_compute; reflexivity. Qed.
+Proof. intros n [<- | [<- | [<- | []]]]; vm_compute; split; reflexivity. Qed.
 End Binary64.
 
 Print Assumptions op3_ge_tnve_cubic.
 Print Assumptions op3_negative_example.
 Print Assumptions op3_negative_iff_noncubic.
-Print Assumptions sweep_nonneg_3d_partial.
-Print Assumptions sweep_nonneg_3d_cubic.
-Print Assumptions sweep_nonneg_3d_refuted.
-Print Assumptions sweep_nonneg_3d_false.
-Print Assumptions Binary64.sweep_negative_binary64.
-Print Assumptions sweep3d_nonneg_cubic.
+Print Assumptions sweep_tt_eq_guarded.
+Print Assumptions node_unguarded_refuted.
+Print Assumptions t3d_guard_noop_cubic.
+Print Assumptions sweep_nonneg_3d.
+Print Assumptions sweep3d_nonneg.
 Print Assumptions init_nonneg_3d.
-Print Assumptions fteik3d_nonneg_cubic.
-Print Assumptions fteik3d_nonneg_cubic_get.
-Print Assumptions Binary64.fteik3d_negative_binary64.
+Print Assumptions fteik3d_nonneg.
+Print Assumptions fteik3d_nonneg_get.
+Print Assumptions Binary64.node_unguarded_negative_binary64.
+Print Assumptions Binary64.fteik3dU_negative_binary64.
+Print Assumptions Binary64.fteik3d_guarded_binary64.
